@@ -657,15 +657,14 @@ class ISO8601Sequence(SequenceBase):
                  self.recurrence.min_point is not None) and
                 (self.recurrence.end_point is not None or
                  self.recurrence.max_point is not None))):
-            curr = None
-            prev = None
-            for recurrence_iso_point in self.recurrence:
-                prev = curr
-                curr = recurrence_iso_point
-            ret = ISO8601Point(str(curr))
-            if self.exclusions and ret in self.exclusions:
-                return ISO8601Point(str(prev))
-            return ret
+            points = [
+                ISO8601Point(str(recurrence_iso_point))
+                for recurrence_iso_point in self.recurrence
+            ]
+            # the last point that is not excluded (there may be none)
+            for point in reversed(points):
+                if not self.exclusions or point not in self.exclusions:
+                    return point
         return None
 
     def __eq__(self, other):
